@@ -375,7 +375,7 @@ def rescaling_precondition(ck):
         boxes.append((tuple(a), tuple(sd)))
     probs = [dict(cls="rescale", box="-", anchor=a, sides=sd, pts=[c15.inbox(a, sd, (0.3, 0.4, 0.6)), c15.inbox(a, sd, (0.7, 0.2, 0.5)), c15.inbox(a, sd, (1.0, 1.0, 1.0)), c15.inbox(a, sd, (0.0, 0.0, 0.0))], qs=[], label="") for a, sd in boxes]
     rc, res = c15.run_harness(os.path.join(d, "impl"), probs, lambda p: ["N1"], env={"C15_ALARM": "20"})
-    n = 0
+    n = ncalls = 0
     for p, r in zip(probs, res):
         N = r.get("N1")
         if not N or N.get("P") is None:
@@ -388,6 +388,15 @@ def rescaling_precondition(ck):
                          "all-encompassing tetrahedron %r - the 52-bit mantissa read by ExactGeometricTests is then not the coordinate (2.0 reads as 1.0), so orient3d/insphere answer for a different point"
                          % (p["anchor"], p["sides"], off[:4], corners), {"rescale_box": {"anchor": list(p["anchor"]), "sides": list(p["sides"])}}, key={"kind": "rescaling_out_of_range"})
             break
+        Q = N.get("Q")
+        if Q is not None:
+            ncalls += Q[0]
+            if Q[1] > 0:
+                ck.violation("C17 (rescaling into [1,2)): while NewVoronoiGrid builds the grid of 4 generators in the box anchor %r sides %r, %d coordinates handed to orient3d/insphere (%d calls) lie outside [1,2), "
+                             "e.g. %r - a call site passes unscaled coordinates; the 52-bit mantissa read by ExactGeometricTests is then not the coordinate, so an undecided (degenerate) case gets the sign of a different point"
+                             % (p["anchor"], p["sides"], Q[1], Q[0], Q[2]), {"rescale_box": {"anchor": list(p["anchor"]), "sides": list(p["sides"])}}, key={"kind": "rescaling_out_of_range"})
+                break
+    ck.coverage["rescaling_predicate_calls_observed"] = ncalls
     ck.coverage["rescaling_boxes_checked"] = n
     return n
 
